@@ -5,6 +5,9 @@
 // (immediate or deferred), one evconnlistener on an abstract AF_UNIX address.  The history activates them and
 // releases each of them at every position: outside the loop, inside its own callback, inside another object's
 // callback, before event_base_free / event_base_free_nofinalize (with or without a loop turn in between).
+// A callback performs a sequence of up to 3 steps (reconfigure = stop/restart/re-point a live object, release, activate), so
+// "disable, then free" / "activate, then free" inside one callback are covered; the same reconfiguration calls are issued outside the
+// loop; the listener also has an error callback, reached through a scripted accept() failure.
 // Oracle: see props/C10.json.  Preconditions respected (documented or what every caller relies on):
 //  * nothing bound to a base is touched after the base is freed (only caller-owned event storage and
 //    non-deferred evbuffers are released afterwards);
@@ -303,7 +306,8 @@ void activate_bev(int i, Src &s) {
     // the bufferevent was freed by a callback nested in this call and dropped its last reference: finalize_many cancelled
     // its events; nothing may put them back (the finalizer frees the memory they live in)
     if (v.released && !W->base_freed && (v.type != 3 || v.ctx.freed == 0) && v.in_cb == 0 && v.in_bufcb == 0 && v.type == 2 && !v.closed_seen && BEV_UPCAST(v.bev)->refcnt == 0)
-      CHECK(!event_pending(&v.bev->ev_write, EV_WRITE | EV_TIMEOUT, nullptr) && !event_pending(&v.bev->ev_read, EV_READ | EV_TIMEOUT, nullptr), K_REARM,
+      // (registration flags, not event_pending(): the event that carries the pending finalizer is "active" with a stale ev_res)
+      CHECK(!(v.bev->ev_write.ev_flags & (EVLIST_INSERTED | EVLIST_TIMEOUT)) && !(v.bev->ev_read.ev_flags & (EVLIST_INSERTED | EVLIST_TIMEOUT)), K_REARM,
             "bufferevent %d was freed from its own evbuffer callback during a bufferevent call; after the call returned its read/write event is pending again", i); } } post{v, i};
   if (v.over >= 0 && how != 2 && how != 3) return;    // the caller drives a filtered bufferevent through the filter, not directly
   if (v.in_bufcb && how != 2 && how != 3) return;      // no re-entrant buffer modification from the buffer's own callback
